@@ -208,8 +208,15 @@ class NarwhalsMaterializer(FormulaMaterializer):
             if spec.output == "sparse":
                 return spsparse.csc_matrix(values)
             if spec.output == "narwhals":
-                # TODO: Inconsistent with non-empty case below (where we use to-native)
-                return nw.from_native(values, eager_only=True)
+                # An empty frame of the same kind as the input, with one row
+                # per retained row (as in the non-empty case: a narwhals frame
+                # for narwhals input, the native frame otherwise).
+                empty = self.__narwhals_data.drop(self.__narwhals_data.columns).head(
+                    values.shape[0]
+                )
+                if nw.dependencies.is_narwhals_dataframe(self.data):
+                    return empty
+                return empty.to_native()
             if spec.output == "numpy":
                 return values
             return self._restore_pandas_index(pandas.DataFrame(values), drop_rows)
